@@ -777,7 +777,8 @@ def run(chk, replay=None):
     chk.cov["distinct_nontrivial"] = len(sigs)
     chk.cov["generator_histogram"] = hist
     chk.cov["phase_s"] = {"proof": round(pr["wall_s"], 1), "impl": round(t2 - t1, 1), "model": round(t3 - t2, 1)}
-    chk.cov["rule"] = ("corpus + stop() at every back-end phase + overload cases at the valve boundary + random sequential LogFile cases "
+    chk.cov["rule"] = ("corpus + stop() at every back-end phase + overload cases at the valve boundary + the fit test at its boundary (len == avail) + "
+                       "several threads on one thread-safe LogFile (free-running, file oracle) + random sequential LogFile cases "
                        "(roll sizes, flush intervals, checkEveryN, virtual seconds incl. same-second/backwards/day boundary, short-write and "
                        "stream-error scripts) + random forced async schedules (real 4 MB buffers) + free-running multi-thread runs; "
                        "non-trivial = reaches a roll, a short write, a stream error, a buffer hand-over, an overload drop, a stop with data "
